@@ -149,7 +149,9 @@ def queries(tier, seed):
                     elif e == 'h_premult':
                         add('%s/%s' % (pair, e[2:]), defs, e, t='thorough', timeout=600, solvers=['kissat'], heavy=1)
                     else:
-                        add('%s/%s' % (pair, e[2:]), defs, e, t='thorough', timeout=300)
+                        # alpha / range laws across channel depths are cheap: a spread of them is in the quick tier
+                        qk = e in ('h_to_rgba', 'h_range') and dcs == RGBA and scs in (GRAY, RGB, CMYK) and (sd, dd) in (('8', '16'), ('8', '32f'), ('32f', '8'), ('16', '8'))
+                        add('%s/%s' % (pair, e[2:]), defs, e, t='quick' if qk else 'thorough', timeout=300)
                 # views of deeper channels: data-movement pairs only (the float luminance / 16-bit cmyk miters had no verdict in 240 s; the plumbing is depth-independent)
                 if sd == dd and (scs, dcs) in ((GRAY, RGBA), (RGBA, RGBA), (RGB, RGB)):
                     views(pair, defs, scs, dcs, 'thorough', qpos)
